@@ -308,6 +308,8 @@ class Phase(Angle):
                 )
         if factor is not None:
             factor, imf = check_imaginary(factor)
+            if imf and imaginary:
+                factor = -factor
             imaginary ^= imf
         if divisor is not None:
             divisor, imd = check_imaginary(divisor)
